@@ -183,8 +183,67 @@ def second_job_same_object(ctx):
         sys.modules.pop("c11_job", None)
 
 
+def loose_verdicts(ctx):
+    """a test that answers with truthy / falsy values instead of strict booleans (falls off the end = None, `return
+    re.search(...)`, 0/1): same statuses, same untouched file on a rejected original"""
+    import contextlib
+    import io
+    import os
+    import sys
+    from lithium.reducer import Lithium
+    from .. import loaders
+
+    d = loaders.scratch() / "c11-loose"
+    d.mkdir(exist_ok=True)
+    (d / "c11_loose.py").write_text(
+        "import os, re\ndef interesting(args, prefix):\n    data = open(args[-1], 'rb').read()\n"
+        "    m = re.search(os.environ['C11_RX'].encode(), data)\n    style = os.environ['C11_STYLE']\n"
+        "    if style == 'match':\n        return m\n    if style == 'none':\n        if m:\n            return True\n        return None\n"
+        "    return 1 if m else 0\n")
+    cwd = os.getcwd()
+    os.chdir(d)
+    try:
+        for style in ("match", "none", "int"):
+            for strategy in ("minimize", "minimize-around", "minimize-balanced", "check-only"):
+                for rx, data, want_rc, want_final in ((r"b\n", b"a\nb\nc\nd\n", 0, b"b\n"), (r"zzz", b"a\nb\nc\n", 1, b"a\nb\nc\n"),
+                                                      (r"a\nb\nc\n", b"a\nb\nc\n", 1, b"a\nb\nc\n")):
+                    tc = d / "tc.txt"
+                    tc.write_bytes(data)
+                    sys.modules.pop("c11_loose", None)
+                    os.environ["C11_RX"], os.environ["C11_STYLE"] = rx, style
+                    argv = ["--strategy=" + strategy, "c11_loose.py", str(tc)]
+                    case = dict(cli=True, argv=argv[:-1], verdict_style=style, regex=rx, data=common.enc_bytes(data))
+                    try:
+                        with contextlib.redirect_stdout(io.StringIO()), contextlib.redirect_stderr(io.StringIO()):
+                            rc = Lithium().main(argv)
+                    except (Exception, SystemExit) as exc:  # pylint: disable=broad-except
+                        ctx.fail("cli-raises", f"main({argv[:-1]}) with a test answering in the {style!r} style raised {type(exc).__name__}: {exc}", case)
+                        continue
+                    finally:
+                        os.environ.pop("C11_RX", None)
+                        os.environ.pop("C11_STYLE", None)
+                    ctx.evaluations += 1
+                    ctx.bump("loose-verdicts")
+                    if strategy == "check-only":
+                        want_rc2, want_final2 = (1 if rx == "zzz" else 0), data
+                    elif strategy == "minimize-around" and want_rc == 0:
+                        want_rc2, want_final2 = None, None         # what it can remove differs; only the status/file coupling below
+                    else:
+                        want_rc2, want_final2 = want_rc, want_final
+                    final = tc.read_bytes()
+                    if want_rc2 is None:
+                        if (rc == 0) != (final != data):
+                            ctx.fail("status", f"main({argv[:-1]}) ({style}): status {rc} but the file went from {data!r} to {final!r}", case)
+                    elif rc != want_rc2 or final != want_final2:
+                        ctx.fail("status", f"main({argv[:-1]}) ({style}): status {rc}, file {final!r}; expected status {want_rc2}, file {want_final2!r}", case)
+                    ctx.nontriv("loose", style, strategy, rx)
+    finally:
+        os.chdir(cwd)
+
+
 def search(ctx):
     second_job_same_object(ctx)
+    loose_verdicts(ctx)
     time_limit_status(ctx)
     edited_file(ctx)
     time_limit_status(ctx)
@@ -197,6 +256,7 @@ def run(ctx) -> int:
     edited_file(ctx)
     cli_check_only(ctx)
     second_job_same_object(ctx)
+    loose_verdicts(ctx)
     time_limit_status(ctx)
     drv.d1(ctx, WHICH, 20000 if ctx.thorough else 5000, NT, allow_abort=False)
     drv.d2_random(ctx, WHICH, NT, 3000 if ctx.thorough else 1000, aborts=False)
